@@ -485,8 +485,27 @@ func init() {
 			d, segs := stepInput(m)
 			steps = append(steps, rdrStep{fn: int(m["fn"].(float64)), data: d, segs: segs, gc: m["gc"].(float64) == 1, scrib: m["scrib"].(float64) == 1})
 		}
-		var j jb
-		execRdrHist(steps, &j)
-		return append([]byte{}, j.b...), nil
+		// what a reused reader does depends on its pool of child readers, which the garbage collector
+		// empties at moments replay cannot recreate exactly: the history is re-executed as recorded, with a
+		// collection before every step, and with none; every execution is a real one and all are validated
+		var out []byte
+		for variant := 0; variant < 6; variant++ {
+			vs := append([]rdrStep{}, steps...)
+			for i := range vs {
+				switch variant % 3 {
+				case 1:
+					vs[i].gc = true
+				case 2:
+					vs[i].gc = false
+				}
+			}
+			var j jb
+			execRdrHist(vs, &j)
+			if variant > 0 {
+				out = append(out, '\n')
+			}
+			out = append(out, j.b...)
+		}
+		return out, nil
 	}
 }
